@@ -106,7 +106,10 @@ def repeatList (s : List Obj) : Nat → List Obj
 /-- `evalStringInfixExpression` -/
 def evalStringInfix (op : String) (l : Bytes) (right : Obj) : M Obj :=
   match op, right with
-  | "PLUS", .str r => pure (.str (l ++ r))
+  | "PLUS", .str r => do
+    -- object.MustBeOk((len(leftVal) + len(rightVal)) / object.ObjectSize)
+    mustBeOk (((l.length + r.length : Nat) : Int) / 16)
+    pure (.str (l ++ r))
   | "ASTERISK", .int n =>
     if n < 0 then pure (err "right operand of * on strings must be a positive integer")
     else do
